@@ -4,6 +4,7 @@ mod c08;
 mod c09;
 mod c11;
 mod c14;
+mod c15;
 mod c14seg;
 mod equil;
 mod igcp;
@@ -22,6 +23,7 @@ fn main() {
         "c09" => c09::run(&args),
         "c11" => c11::run(&args),
         "c14" => c14::run(&args),
+        "c15" => c15::run(&args),
         "thermo" => thermo::run(&args),
         "igcp" => igcp::run(&args),
         "equil" => equil::run(&args),
